@@ -262,6 +262,24 @@ CHECKS['C10'] = dict(
          'RecognitionError; sweeten sees the node built from the attributes.',
     design='4 C10')
 
+CHECKS['C17'] = dict(
+    technique='Hypothesis-generated failing documents with a validity '
+              'predicate on the positions parsed from the message; for the '
+              'strong claim single-point corruptions at known tree paths '
+              'whose line numbers are recovered by composing the text',
+    text='Weak claim: arbitrary generated models (hierarchies, abstract '
+         'classes, hooks, extras, unions, discriminators) x failing '
+         'documents in flow/block/narrow/literal/explicit-marker style: every '
+         'RecognitionError cites >=1 position and every cited (line, column) '
+         'lies inside the document. Strong claim: hierarchy-free, hook-free '
+         'models x valid block-style documents x one corruption (scalar of '
+         'another type, misspelt key, dropped required key, added unknown '
+         'key, unknown enum member) at any depth: some cited line is the '
+         'line of the corrupted node, of its key or of the start of the '
+         'enclosing mapping, and unknown/missing/misspelt keys are named in '
+         'quotes.',
+    design='4 C17')
+
 NOT_YET = 'check not built yet in this session (work in progress)'
 
 
